@@ -21,7 +21,13 @@ func c16Lex(maxBytes int, restricted bool) {
 	} else {
 		src = vapi.Bytes("src", n)
 	}
-	defer func() { _ = recover() }() // lexErr panics are diagnostics
+	defer func() { // lexErr panics (strings) are diagnostics; a Go run-time error is a crash
+		if r := recover(); r != nil {
+			if _, isDiag := r.(string); !isDiag {
+				panic(r)
+			}
+		}
+	}()
 	ls := NewLexState("verif.tars", src)
 	eof := false
 	for i := 0; i < n+2; i++ {
